@@ -585,3 +585,16 @@ add('C15', 'revert-fix-718673a (last Markov level generated again after it was f
 add('C08', 'exhaustion-position-zero', CSF, EXH, "                self.pqueue.max_probability = 0.0\n", 'fire', 'C08.R28')
 add('C15', 'exhaustion-position-min-probability', CSF, EXH, "                self.pqueue.max_probability = self.pqueue.min_probability\n", 'fire', 'C15.R17')
 add('C08', 'exhaustion-position-minus-inf', CSF, EXH, "                self.pqueue.max_probability = float('-inf')\n", 'silent')
+
+# ---- mutation sweep (third run): the gate in front of the OMEN restore ---------------------------------------------------
+LOADGATE = "        if load_session:\n            # If true, we need to restart an OMEN guessing session"
+add('C15', 'omen-restore-gate-inverted', CSF, LOADGATE, LOADGATE.replace("if load_session:", "if not load_session:"), 'fire', 'C15.R18')
+add('C15', 'omen-restore-marker-inverted', CSF, "            if self.save_config.has_option('guessing_info','omen_guess_number'):", "            if not self.save_config.has_option('guessing_info','omen_guess_number'):", 'fire', 'C15.R18')
+add('C15', 'omen-restore-gate-is-true', CSF, LOADGATE, LOADGATE.replace("if load_session:", "if load_session is True:"), 'silent')
+
+# ---- mutation sweep (third run): the scorer's n-gram size ------------------------------------------------------------------
+OSCF = 'lib_scorer/omen_scorer.py'
+NGRAM_SET = "                    if self.ngram == -1:\n                        self.ngram = len(line[1])"
+add('C11', 'scorer-ngram-from-level-field', OSCF, NGRAM_SET, NGRAM_SET.replace("len(line[1])", "len(line[0])"), 'fire', 'C11.R20')
+add('C11', 'scorer-ngram-guard-never-true', OSCF, NGRAM_SET, NGRAM_SET.replace("== -1", "== -2"), 'fire', 'C11.R20')
+add('C11', 'scorer-ngram-guard-operands-swapped', OSCF, NGRAM_SET, NGRAM_SET.replace("self.ngram == -1", "-1 == self.ngram"), 'silent')
